@@ -60,6 +60,7 @@ M = [
     ('kafka-batch-past-high', 'streamz/sources.py', "                if high >= msg.offset():\n                    if keys:", "                if True:\n                    if keys:", ['C09']),
     ('zip-late-input-bounded-deque', 'streamz/core.py', "        self.buffers[upstream] = deque()\n        super(zip, self)._add_upstream(upstream)", "        self.buffers[upstream] = deque(maxlen=self.maxsize)\n        super(zip, self)._add_upstream(upstream)", ['C15']),
     ('interval-string-whole-seconds', 'streamz/core.py', "        interval = pd.Timedelta(interval).total_seconds()", "        interval = pd.Timedelta(interval).seconds", ['C13']),
+    ('interval-numpy-int-as-nanoseconds', 'streamz/core.py', "        interval = interval.item()\n", "        import pandas as pd\n        interval = pd.Timedelta(interval).total_seconds()\n", ['C13']),
     ('gather-no-wait-downstream', 'streamz/dask.py', "        result2 = yield self._emit(result, metadata=metadata)", "        result2 = self._emit(result, metadata=metadata)", ['C20']),
 ]
 
